@@ -71,8 +71,33 @@ func contains(xs []int, x int) bool {
 	return false
 }
 
+// ReadBudgetPanic is raised by Read when the consumer keeps polling far beyond anything a
+// conforming consumer needs (an unbounded retry loop that makes no other library call).
+type ReadBudgetPanic struct{ Reads int }
+
+func (r ReadBudgetPanic) Error() string {
+	return "verif: step budget exceeded (stream polled " + itoa(r.Reads) + " times)"
+}
+
+func itoa(n int) string {
+	if n == 0 {
+		return "0"
+	}
+	var b [20]byte
+	i := len(b)
+	for n > 0 {
+		i--
+		b[i] = byte('0' + n%10)
+		n /= 10
+	}
+	return string(b[i:])
+}
+
 func (s *Stream) Read(b []byte) (int, error) {
 	s.Reads++
+	if s.Reads > 4*len(s.data)+2000+4*s.ZeroReads+2*s.p.StallLen {
+		panic(ReadBudgetPanic{Reads: s.Reads})
+	}
 	if s.perm != nil {
 		return 0, s.perm
 	}
